@@ -13,92 +13,114 @@ inductive Reach (w : Wiring) : Comp → Comp → Prop
 
 /-- connections are preserved by inverse → wiring. -/
 theorem conn_fromInverse (iw : InvWiring) (h : iw.WF) (a : Comp) (p : Port) (b : Comp) (q : Port) :
-    (Wiring.fromInverse iw).Conn a p b q ↔ iw.Conn a p b q := by
-  sorry
+    (Wiring.fromInverse iw).Conn a p b q ↔ iw.Conn a p b q :=
+  Wiring.conn_fromInverse' iw h a p b q
 
 /-- unconnected components are preserved, sources become known components. -/
 theorem keys_fromInverse (iw : InvWiring) (h : iw.WF) (c : Comp) :
-    c ∈ akeys (Wiring.fromInverse iw) ↔ c ∈ akeys iw ∨ ∃ p b q, iw.Conn c p b q := by
-  sorry
+    c ∈ akeys (Wiring.fromInverse iw) ↔ c ∈ akeys iw ∨ ∃ p b q, iw.Conn c p b q :=
+  Wiring.keys_fromInverse' iw h c
 
 theorem wf_fromInverse (iw : InvWiring) (h : iw.WF) : (Wiring.fromInverse iw).WF := by
-  sorry
+  have _ := h -- hypothesis not needed: holds for every `iw`
+  exact Wiring.wf_fromInverse' iw
 
 /-- connections are preserved by wiring → inverse (one source per input port). -/
 theorem conn_fromWiring (w : Wiring) (h : w.WF) (h1 : w.OneSource) (a : Comp) (p : Port) (b : Comp) (q : Port) :
-    (InvWiring.fromWiring w).Conn a p b q ↔ w.Conn a p b q := by
-  sorry
+    (InvWiring.fromWiring w).Conn a p b q ↔ w.Conn a p b q :=
+  InvWiring.conn_fromWiring' w h h1 a p b q
 
 theorem keys_fromWiring (w : Wiring) (h : w.WF) (c : Comp) :
-    c ∈ akeys (InvWiring.fromWiring w) ↔ c ∈ akeys w ∨ ∃ a p q, w.Conn a p c q := by
-  sorry
+    c ∈ akeys (InvWiring.fromWiring w) ↔ c ∈ akeys w ∨ ∃ a p q, w.Conn a p c q :=
+  InvWiring.keys_fromWiring' w h c
 
 theorem wf_fromWiring (w : Wiring) (h : w.WF) : (InvWiring.fromWiring w).WF := by
-  sorry
+  have _ := h -- hypothesis not needed: holds for every `w`
+  exact InvWiring.wf_fromWiring' w
 
 /-- inverse → wiring → inverse: the original set of connections, none lost or invented. -/
 theorem inverse_roundtrip (iw : InvWiring) (h : iw.WF) (a : Comp) (p : Port) (b : Comp) (q : Port) :
     (InvWiring.fromWiring (Wiring.fromInverse iw)).Conn a p b q ↔ iw.Conn a p b q := by
-  sorry
+  rw [InvWiring.conn_fromWiring' _ (Wiring.wf_fromInverse' iw) (Wiring.oneSource_fromInverse iw h),
+    Wiring.conn_fromInverse' iw h]
 
 /-- … and the same set of components (keys and sources). -/
 theorem inverse_roundtrip_components (iw : InvWiring) (h : iw.WF) (c : Comp) :
     c ∈ akeys (InvWiring.fromWiring (Wiring.fromInverse iw)) ↔
       c ∈ akeys iw ∨ ∃ p b q, iw.Conn c p b q := by
-  sorry
+  rw [InvWiring.keys_fromWiring' _ (Wiring.wf_fromInverse' iw), Wiring.keys_fromInverse' iw h]
+  constructor
+  · rintro (hk | ⟨a, p, q, hc⟩)
+    · exact hk
+    · rw [Wiring.conn_fromInverse' iw h] at hc
+      exact Or.inl (InvWiring.mem_akeys_of_conn hc)
+  · exact Or.inl
 
 /-- wiring → inverse → wiring. -/
 theorem wiring_roundtrip (w : Wiring) (h : w.WF) (h1 : w.OneSource) (a : Comp) (p : Port) (b : Comp) (q : Port) :
     (Wiring.fromInverse (InvWiring.fromWiring w)).Conn a p b q ↔ w.Conn a p b q := by
-  sorry
+  rw [Wiring.conn_fromInverse' _ (InvWiring.wf_fromWiring' w), InvWiring.conn_fromWiring' w h h1]
 
 theorem wiring_roundtrip_components (w : Wiring) (h : w.WF) (h1 : w.OneSource) (c : Comp) :
     c ∈ akeys (Wiring.fromInverse (InvWiring.fromWiring w)) ↔
       c ∈ akeys w ∨ ∃ a p q, w.Conn a p c q := by
-  sorry
+  rw [Wiring.keys_fromInverse' _ (InvWiring.wf_fromWiring' w), InvWiring.keys_fromWiring' w h]
+  constructor
+  · rintro (hk | ⟨p, b, q, hc⟩)
+    · exact hk
+    · rw [InvWiring.conn_fromWiring' w h h1] at hc
+      exact Or.inl (Wiring.mem_akeys_of_conn hc)
+  · exact Or.inl
 
 /-- an output change is routed to exactly the input ports wired to that output. -/
 theorem route_exact {Val : Type} (w : Wiring) (h : w.WF) (h1 : w.OneSource) (a : Comp)
     (ch : List (Port × Val)) (hch : DictWF ch) (b : Comp) (q : Port) (v : Val) :
     (∃ m, alookup (w.route a ch) b = some m ∧ alookup m q = some v) ↔
       ∃ p, alookup ch p = some v ∧ w.Conn a p b q := by
-  sorry
+  have _ := h -- hypothesis not needed: only `OneSource` and `DictWF ch` are needed
+  exact Wiring.route_exact' w h1 a ch hch b q v
 
 /-- a component appears in the routing result only with at least one changed port. -/
 theorem route_nonempty {Val : Type} (w : Wiring) (a : Comp) (ch : List (Port × Val)) (b : Comp)
-    (m : List (Port × Val)) (hm : alookup (w.route a ch) b = some m) : m ≠ [] := by
-  sorry
+    (m : List (Port × Val)) (hm : alookup (w.route a ch) b = some m) : m ≠ [] :=
+  Wiring.route_noEmpty w a ch b m hm
 
 theorem route_wf {Val : Type} (w : Wiring) (a : Comp) (ch : List (Port × Val)) :
-    DictWF (w.route a ch) ∧ ∀ e ∈ w.route a ch, DictWF e.2 := by
-  sorry
+    DictWF (w.route a ch) ∧ ∀ e ∈ w.route a ch, DictWF e.2 :=
+  Wiring.route_wf2 w a ch
 
 /-- the component set is the keys plus everything that is wired to. -/
 theorem mem_components_iff (w : Wiring) (h : w.WF) (c : Comp) :
-    c ∈ w.components ↔ c ∈ akeys w ∨ ∃ a p q, w.Conn a p c q := by
-  sorry
+    c ∈ w.components ↔ c ∈ akeys w ∨ ∃ a p q, w.Conn a p c q :=
+  Wiring.mem_components_iff' h c
 
 /-- first-order dependants are the wire targets. -/
 theorem mem_children_iff (w : Wiring) (h : w.WF) (a : Comp) (ch : List Comp) (hc : w.children a = some ch) (b : Comp) :
-    b ∈ ch ↔ w.Edge a b := by
-  sorry
+    b ∈ ch ↔ w.Edge a b :=
+  Wiring.mem_children_iff' h hc b
 
 /-- the inverse tree is the converse of the tree, defined on every component. -/
 theorem mem_ups_iff (w : Wiring) (h : w.WF) (b : Comp) (us : List Comp) (hu : w.ups b = some us) (a : Comp) :
-    a ∈ us ↔ w.Edge a b := by
-  sorry
+    a ∈ us ↔ w.Edge a b :=
+  Wiring.mem_ups_iff' h hu a
 
 theorem ups_isSome_iff (w : Wiring) (h : w.WF) (b : Comp) : (w.ups b).isSome ↔ b ∈ w.components := by
-  sorry
+  have _ := h -- hypothesis not needed: holds for every `w`
+  exact Wiring.ups_isSome_iff' w b
 
 /-- the dependants of a component are exactly the components reachable from it along
 wires, itself included. -/
 theorem mem_dependants_iff (w : Wiring) (h : w.WF) (r c : Comp) :
     c ∈ w.dependants r ↔ Reach w r c := by
-  sorry
+  constructor
+  · exact Wiring.dependants_sound h r (Reach w r) (Reach.refl r) (fun _ _ hab he => Reach.tail hab he) c
+  · intro hr
+    induction hr with
+    | refl => exact (Wiring.dependants_closed w r).1
+    | tail _ he ih => exact (Wiring.dependants_closed w r).2 _ ih _ he
 
-theorem dependants_nodup (w : Wiring) (r : Comp) : (w.dependants r).Nodup := by
-  sorry
+theorem dependants_nodup (w : Wiring) (r : Comp) : (w.dependants r).Nodup :=
+  Wiring.dependants_nodup' w r
 
 /-! non-vacuity: a concrete well-formed, one-source diamond -/
 def exDiamond : Wiring :=
